@@ -89,7 +89,7 @@ MODEL = dict(
     ],
     quick=dict(sample=2500, drive_runs=288, drive_len=40),
     # thorough: a fifth of the 2- and 3-call behaviours TLC emits (each on every applicable flavour)
-    thorough=dict(sample=40000, drive_runs=3200, drive_len=60),
+    thorough=dict(sample=40000, drive_runs=1600, drive_len=60),
     need=[("mint", "ok"), ("mint", "fail"), ("burn", "ok"), ("burn", "fail"), ("transfer", "ok"),
           ("transfer", "fail"), ("delegate", "ok"), ("delegate", "fail"), ("approve", "ok"),
           ("xfer_from", "ok"), ("xfer_from", "fail"), ("burn_from", "ok"), ("burn_from", "fail")],
